@@ -269,7 +269,7 @@ pub const CORPUS: &[&str] = &[
     "forbid(principal,action,resource,);",
     "permit(principal == User::\"a\", action in [Action::\"a\", Action::\"b\",], resource in NS::Doc::\"d\",) when { true };",
     "permit(principal is User in Group::\"g\", action == Action::\"a\", resource is NS::Doc) unless { false };",
-    "permit(principal == ?principal, action, resource in ?resource) when { principal in ?principal };",
+    "permit(principal == ?principal, action, resource in ?resource) when { principal in Group::\"g\" };",
     "permit(principal is User in ?principal, action, resource is NS::Doc in ?resource);",
     "@id(\"p1\") @note(\"has // no comment\") @bare permit(principal,action,resource) when { { a : 1 , } == {\"a\":1,\"b c\":[1,2,],} };",
     "permit(principal,action,resource) when { [1,] == [1,2,3,] && [ ] == [] && {} == { } };",
@@ -283,10 +283,10 @@ pub const CORPUS: &[&str] = &[
     "permit(principal,action,resource) when { true || false || true && false && true || 1 < 2 || 1 <= 2 || 1 > 2 || 1 >= 2 || 1 != 2 };",
     "permit(principal,action,resource) when { principal in [User::\"a\", Group::\"b\"] && [1,2].contains(1) && [1].containsAll([1,]) && [1].containsAny([2]) && [].isEmpty() };",
     "permit(principal,action,resource) when { principal.hasTag(\"k1\") && principal.getTag(\"k1\") == 1 };",
-    "permit(principal,action,resource) when { {if: 1, then: 2, \"else\": 3, in: 4, has: 5, like: 6, is: 7, true: 8, principal: 9}.if == 1 };",
+    "permit(principal,action,resource) when { {\"if\": 1, \"then\": 2, principal: 3, action: 4, resource: 5, context: 6, permit: 7, when: 8, unless: 9, forbid: 10,}.principal == {a:1}[\"a\"] };",
     "permit(principal,action,resource) when { {a: {b: {c: [ {d: 1,}, ], }, }, }.a.b.c == [] };",
     "permit(principal,action,resource) when { true } unless { false } when { 1 == 1 } unless { 2 == 1 };",
-    "permit(principal,action,resource) when { } ;",
+    "permit(principal,action,resource) when { true } ;",
     "permit(principal,action,resource) when { datetime(\"2024-01-01\").offset(duration(\"1d\")).toDate() < datetime(\"2025-01-01\") && duration(\"1h\").toMinutes() == 60 };",
     "permit(principal,action,resource) when { 0007 == 7 && 9223372036854775807 > 0 && -9223372036854775808 < 0 };",
     "permit(principal,action,resource) when { A::B::C::\"x\" == A::B::C::\"x\" && NS::Doc::\"\\u{1F600}\" != NS::Doc::\"e\\\"q\" };",
@@ -501,7 +501,7 @@ fn inject(text: &str, toks: &[Tok], b: usize, style: usize, tag: &str) -> String
 pub fn run_program(out: &mut Out, r: &mut Rng, text: &str, thorough: bool, exhaustive_grid: bool) {
     let base = match shape(text) {
         Ok(s) => s,
-        Err(_) => { out.count("generated_unparseable"); return; }
+        Err(e) => { out.count("generated_unparseable"); if std::env::var("C12_DEBUG").is_ok() { eprintln!("UNPARSEABLE: {text}\n{}", e.chars().take(400).collect::<String>()); } return; }
     };
     out.cases += 1;
     out.count("programs");
@@ -523,18 +523,22 @@ pub fn run_program(out: &mut Out, r: &mut Rng, text: &str, thorough: bool, exhau
             let t = inject(text, &toks, b, style, &tag);
             out.count("boundary_variants");
             // the injected text must still parse to the same policies (comments are not tokens)
-            match shape(&t) {
-                Ok(s) => if let Some(d) = shape_diff(&base, &s) { out.propfail("harness: injected comment changed the parse", &t, &d); continue; },
-                Err(e) => { out.propfail("harness: injected comment broke the parse", &t, &e.chars().take(200).collect::<String>()); continue; }
+            // (sanity of the harness; check_one compares every output with `base` anyway)
+            if thorough || b % 4 == 0 {
+                match shape(&t) {
+                    Ok(s) => if let Some(d) = shape_diff(&base, &s) { out.propfail("harness: injected comment changed the parse", &t, &d); continue; },
+                    Err(e) => { out.propfail("harness: injected comment broke the parse", &t, &e.chars().take(200).collect::<String>()); continue; }
+                }
             }
             if style == 0 || b % 7 == 0 { model_line(out, &t, "injected"); }
             if exhaustive_grid {
-                for &(lw, iw) in &grid { check_one(out, &t, &base, lw, iw, lw == 40); }
+                if !thorough && style == 2 { continue; }
+                for &(lw, iw) in &grid { check_one(out, &t, &base, lw, iw, thorough && lw == 40); }
             } else {
-                let ncfg = if thorough { 4 } else { 2 };
+                let ncfg = if thorough { 4 } else { 1 };
                 for j in 0..ncfg {
                     let (lw, iw) = grid[(k + j * 7) % grid.len()];
-                    let o = check_one(out, &t, &base, lw, iw, j == 0);
+                    let o = check_one(out, &t, &base, lw, iw, j == 0 && (thorough || style == 0));
                     if j == 0 && style == 1 && b % 5 == 0 { if let Some(o) = o { model_line(out, &o, "output-of-injected"); } }
                 }
                 k += 1;
@@ -560,7 +564,7 @@ pub fn run_program(out: &mut Out, r: &mut Rng, text: &str, thorough: bool, exhau
         }
         model_line(out, &t, "all-boundaries");
         out.count("all_boundary_variants");
-        for j in 0..(if thorough { 6 } else { 3 }) {
+        for j in 0..(if thorough { 6 } else { 2 }) {
             let (lw, iw) = grid[(k + j * 3) % grid.len()];
             check_one(out, &t, &base, lw, iw, true);
         }
@@ -581,8 +585,8 @@ pub fn run(args: &Args, out: &mut Out) {
     // 1. the hand-written corpus: exhaustive boundaries x full grid
     for (i, text) in CORPUS.iter().enumerate() {
         let mut r = rng.fork();
-        // the quick tier runs the full grid on every third corpus entry (rotating with the seed), others rotate configs
-        let full = args.thorough || (i as u64 + args.seed) % 3 == 0;
+        // the quick tier runs the full grid on two corpus entries (rotating with the seed); the others rotate configs per boundary
+        let full = args.thorough || (i as u64 + args.seed) % 14 == 0;
         run_program(out, &mut r, text, args.thorough, full);
         out.count("corpus_programs");
     }
